@@ -148,11 +148,18 @@ func c12Gen(r *Rand, tier string, emit func(op any)) {
 
 	// 1. exhaustive: small sizes × every history up to a length over
 	//    {empty write, 1 byte, 2 bytes, exactly the size, size+1, Sync, tick, Stop}, reliable sink
+	//    (quick: sizes 1..3, length ≤ 4; thorough: sizes 1..3 length ≤ 5, sizes 5 and 8 length ≤ 4)
 	sizes, maxLen := []int{1, 2, 3}, 4
 	if thorough {
-		sizes, maxLen = []int{1, 2, 3, 5, 8}, 5
+		sizes = []int{1, 2, 3, 5, 8}
 	}
 	for _, size := range sizes {
+		if thorough {
+			maxLen = 4
+			if size <= 3 {
+				maxLen = 5
+			}
+		}
 		letters := []c12Step{c12W(nil), c12W([]byte("a")), c12W([]byte("bc")), c12W(bytes.Repeat([]byte("s"), size)),
 			c12W(bytes.Repeat([]byte("L"), size+1)), {O: "s"}, {O: "t"}, {O: "x"}}
 		for n := 0; n <= maxLen; n++ {
@@ -175,7 +182,7 @@ func c12Gen(r *Rand, tier string, emit func(op any)) {
 	// 2. random histories: sizes 1…4 KiB (and the defaults), write lengths around the free space, failing sinks
 	nSeq := 1500
 	if thorough {
-		nSeq = 150000
+		nSeq = 60000
 	}
 	for i := 0; i < nSeq; i++ {
 		op := c12Op{K: "seq", Size: Pick(r, []int{1, 2, 3, 4, 5, 7, 8, 16, 16, 64, 64, 100, 1024, 4096, -1})}
@@ -244,7 +251,7 @@ func c12Gen(r *Rand, tier string, emit func(op any)) {
 	// 3. the bufio.Writer model against the real one (incl. the buffered branch of its loop, which zap's pre-flush avoids)
 	nBuf := 600
 	if thorough {
-		nBuf = 40000
+		nBuf = 15000
 	}
 	for i := 0; i < nBuf; i++ {
 		op := c12Op{K: "bufio", Size: Pick(r, []int{1, 2, 3, 4, 5, 8, 16, 64})}
@@ -266,7 +273,7 @@ func c12Gen(r *Rand, tier string, emit func(op any)) {
 	// 4. concurrent programs
 	nConc := 80
 	if thorough {
-		nConc = 4000
+		nConc = 1500
 	}
 	for i := 0; i < nConc; i++ {
 		op := c12Op{K: "conc", Size: Pick(r, []int{8, 16, 64, 256, 4096}), Ticks: r.Intn(20), Stoppers: Pick(r, []int{0, 1, 2, 2, 2, 3, 5})}
